@@ -1,6 +1,7 @@
 package main
 
 import (
+	"go/token"
 	"go/types"
 	"strings"
 
@@ -12,7 +13,7 @@ func init() {
 		ID: "C20",
 		Explanation: "Immutability after construction, decided by effect summaries over the call graph: for X25519Recipient/Identity, ScryptRecipient/Identity, RSARecipient/Identity, Ed25519Recipient/Identity, (R20.1) no function reachable from their Wrap/WrapWithLabels/Unwrap/unwrap/Recipient/String methods writes a field of these types, or memory reachable from the receiver (store, copy, append, writing callee), unless the memory was allocated in that invocation; (R20.2) none writes a package variable; " +
 			"(R20.3) module-wide, fields of these types are written on non-fresh values only by the two documented Set*WorkFactor configuration methods; (R20.4) receiver-derived memory is handed to external code only through callees whose contract says they do not write it; (R20.5) the label slices Encrypt sorts in place are freshly allocated by the in-module RecipientWithLabels implementations; " +
-			"(R20.6) Encrypt and Decrypt write no shared memory other than dst/src and those labels. Immutable shared values imply absence of data races on them and independence of results.",
+			"(R20.6) Encrypt and Decrypt write no shared memory other than dst/src and those labels; (R20.7) the functions behind Encrypt, Decrypt and the STREAM constructors and methods use no package-level state: a package variable they mention is an initialise-once table, sentinel or pattern, never written, or a test hook, and is not a mutable object (buffered reader, buffer, hash, pool, updated map). Immutable shared values imply absence of data races on them and independence of results.",
 		NotDecided:  "races inside external libraries; third-party Recipient/Identity implementations; real interleavings (this is a sufficient static argument for the in-module part, not an exploration of schedules).",
 		Assumptions: []string{"the external callees listed as non-writing in the checker's contract table do not write through their arguments", "CHA call graph over-approximates dynamic dispatch inside the module"},
 		Technique:   "static analysis: effect summaries (stored fields, written parameters, globals) with freshness classification, fix-point over a CHA call graph",
@@ -284,7 +285,7 @@ func runC20(p *Program, r *Result) {
 		}
 		r.Check(bad == "" && len(e.Globals) == 0, fn.String(), "writes", "", "only freshly allocated memory is written (plus the label sort of R20.5)", "shared memory is written: "+bad)
 	}
-	r.Rule("R20.5", "no package-level state behind Encrypt, Decrypt and the STREAM constructors: concurrent operations share nothing mutable", 1)
+	r.Rule("R20.7", "no package-level state behind Encrypt, Decrypt and the STREAM constructors: concurrent operations share nothing mutable", 1)
 	checkNoPackageState(p, r, []*ssa.Function{r.anchor(pkgAge, "", "Encrypt"), r.anchor(pkgAge, "", "Decrypt"), r.anchor(pkgStream, "", "NewWriter"), r.anchor(pkgStream, "", "NewReader"),
 		r.anchor(pkgStream, "Writer", "Write"), r.anchor(pkgStream, "Writer", "Close"), r.anchor(pkgStream, "Reader", "Read")}, nil)
 }
@@ -292,6 +293,8 @@ func runC20(p *Program, r *Result) {
 // readOnlyExt: further external callees that only read their arguments.
 var readOnlyExt = map[string]bool{
 	"strings.ToUpper": true,
+	"(*encoding/base64.Encoding).EncodedLen": true,
+	"(*encoding/base64.Encoding).DecodedLen": true,
 	"strings.ToLower": true,
 	"strconv.Itoa":    true,
 	"errors.Is":       true,
@@ -380,7 +383,11 @@ func checkNoPackageState(p *Program, r *Result, roots []*ssa.Function, hooks map
 						bad = "assigns the package variable " + g.Name() + " at " + r.pos(in)
 						continue
 					}
-					if p.globalInit(g) == nil {
+					if why := statefulGlobal(g, in); why != "" {
+						bad = "uses the package-level " + g.Name() + " (" + why + ") at " + r.pos(in)
+						continue
+					}
+					if p.globalInit(g) == nil && !p.globalNeverWritten(g) {
 						bad = "reads the package variable " + g.Name() + ", which is not written exactly once by the initialiser, at " + r.pos(in)
 					}
 				}
@@ -396,4 +403,96 @@ func checkNoPackageState(p *Program, r *Result, roots []*ssa.Function, hooks map
 		}
 	}
 	r.OK("library", "package-state", "", itoa(n)+" functions reachable from the entry points: package variables are initialise-once tables and test hooks only")
+}
+
+// globalNeverWritten: no instruction of the module stores to g or through an address derived from
+// it, and such addresses go nowhere but into loads and the read-only arguments of bytes.Equal,
+// subtle.ConstantTimeCompare and copy's source: a zero-valued constant in variable's clothing
+// (var zeroNonce [12]byte).
+func (p *Program) globalNeverWritten(g *ssa.Global) bool {
+	var ok func(v ssa.Value, refs []ssa.Instruction, d int) bool
+	ok = func(v ssa.Value, refs []ssa.Instruction, d int) bool {
+		if d > 3 {
+			return false
+		}
+		for _, u := range refs {
+			switch x := u.(type) {
+			case *ssa.DebugRef:
+			case *ssa.UnOp:
+				if x.Op != token.MUL {
+					return false
+				}
+			case *ssa.Slice:
+				if x.X != v || x.Referrers() == nil || !ok(x, *x.Referrers(), d+1) {
+					return false
+				}
+			case *ssa.IndexAddr:
+				if x.X != v || x.Referrers() == nil || !ok(x, *x.Referrers(), d+1) {
+					return false
+				}
+			case ssa.CallInstruction:
+				c := x.Common()
+				switch {
+				case isBuiltin(c, "copy"):
+					if len(c.Args) != 2 || c.Args[0] == v {
+						return false
+					}
+				case isBuiltin(c, "len"):
+				case calleeName(c) == "bytes.Equal" || calleeName(c) == "crypto/subtle.ConstantTimeCompare":
+				default:
+					return false
+				}
+			default:
+				return false
+			}
+		}
+		return true
+	}
+	return ok(g, p.globalUses(g), 0)
+}
+
+// statefulGlobal: a package variable that is assigned once can still be state when what it
+// holds is a mutable object every call works on: a buffered reader or writer, a buffer, a hash,
+// a stream, a file, a random generator; a map that is updated or a slice whose elements are
+// assigned outside the initialiser. in is the instruction mentioning g.
+func statefulGlobal(g *ssa.Global, in ssa.Instruction) string {
+	t := g.Type()
+	if pt, ok := t.Underlying().(*types.Pointer); ok {
+		t = pt.Elem()
+	}
+	ts := strings.TrimPrefix(typeString(t), "*")
+	for _, pre := range []string{"bufio.", "bytes.Buffer", "strings.Builder", "hash.", "io.Reader", "io.Writer", "io.ReadWriter", "io.ReadCloser", "io.WriteCloser", "os.File",
+		"crypto/cipher.Stream", "crypto/cipher.BlockMode", "math/rand.", "math/rand/v2.", "container/", "time.Timer", "time.Ticker"} {
+		if strings.HasPrefix(ts, pre) {
+			return ts + ": a mutable object shared by all calls"
+		}
+	}
+	if in.Parent() != nil && in.Parent().Name() == "init" {
+		return ""
+	}
+	ld, ok := in.(*ssa.UnOp)
+	if !ok || ld.Referrers() == nil {
+		return ""
+	}
+	for _, u := range *ld.Referrers() {
+		switch x := u.(type) {
+		case *ssa.MapUpdate:
+			if x.Map == ssa.Value(ld) {
+				return "a map that is updated"
+			}
+		case *ssa.IndexAddr:
+			if x.X == ssa.Value(ld) && x.Referrers() != nil {
+				for _, u2 := range *x.Referrers() {
+					if st, ok := u2.(*ssa.Store); ok && st.Addr == ssa.Value(x) {
+						return "a slice whose elements are assigned"
+					}
+				}
+			}
+		case ssa.CallInstruction:
+			if isBuiltin(x.Common(), "delete") {
+				return "a map that is updated"
+			}
+		}
+	}
+	return ""
 }
